@@ -44,7 +44,7 @@ ASSUMPTIONS = [
 ]
 REAL_STUB = {"real": ["onnx_ir._cloner", "Model/Graph/Function/GraphView.clone", "passes.functionalize and the wrapped passes", "serde.to_proto"], "stub": [], "harness_extension_points": []}
 
-CLONE_KINDS = ["model", "model_deep", "graph", "graph_deep", "function", "view", "functionalize", "subgraph_outer_allowed", "subgraph_outer_forbidden"]
+CLONE_KINDS = ["model", "model_deep", "graph", "graph_deep", "function", "view", "view_partial", "functionalize", "subgraph_outer_allowed", "subgraph_outer_forbidden"]
 PASSES = ["RemoveUnusedNodesPass", "IdentityEliminationPass", "NameFixPass", "TopologicalSortPass", "CommonSubexpressionEliminationPass", "DeduplicateInitializersPass", "LiftConstantsToInitializersPass", "InlinePass", "ClearMetadataAndDocStringPass", "OutputFixPass"]
 EDIT_WEIGHTS = {
     "replace_input": 8, "resize_inputs": 2, "resize_outputs": 2, "rauw": 4, "value_name": 6, "value_attrs": 14, "node_attrs": 8, "rename_values": 3,
@@ -225,6 +225,11 @@ def run_case(case: dict) -> dict:
                 inc("nested_typed_values")
     kind = case["clone"]
     inc("clone_" + kind)
+    # the original as it is before anything is cloned: cloning (accepted or refused) never changes it
+    w0 = World()
+    w0.reg(model)
+    w0.close()
+    snap0 = snapshot.snapshot(w0, tensors=False)
     original_obj = model
     clone_obj = None
     allowed_shared: set = set()
@@ -246,6 +251,33 @@ def run_case(case: dict) -> dict:
             g = model.graph
             original_obj = ir.GraphView(list(g.inputs), list(g.outputs), nodes=list(g), initializers=list(g.initializers.values()), name=g.name, opset_imports=dict(g.opset_imports), doc_string=g.doc_string)
             clone_obj = original_obj.clone()
+        elif kind == "view_partial":
+            # a view over the first nodes only that nevertheless lists, as an output, a value produced by a node
+            # left out of it (and not declared as an input): not self-contained, a clone must refuse it clearly
+            g = model.graph
+            nodes_ = list(g)
+            if len(nodes_) < 2:
+                inc("skipped_small_graph")
+                return res
+            cut = 1 + case["model_seed"] % (len(nodes_) - 1)
+            inside, outside = nodes_[:cut], nodes_[cut:]
+            outs_ = [o for o in inside[-1].outputs[:1]] + [o for o in outside[-1].outputs[:1]]
+            view = ir.GraphView(list(g.inputs), outs_, nodes=inside, initializers=list(g.initializers.values()), name=g.name, opset_imports=dict(g.opset_imports))
+            try:
+                view.clone()
+            except Exception as e:  # noqa: BLE001 - the expected outcome
+                inc("partial_view_rejected")
+                trace.append(("clone", "rejected", type(e).__name__))
+            else:
+                viol("outer-capture-not-rejected", "GraphView.clone() returned although one of the view's outputs is produced outside the view and is not one of its inputs", key="outer-capture-not-rejected|view_partial")
+                return res
+            snap_after = snapshot.snapshot(w0, tensors=False)
+            if snap_after != snap0:
+                d = snapshot.diff(snap0, snap_after)
+                viol("clone-changed-the-original", f"view_partial: the refused clone changed the original: {str(d[:2])[:400]}", key="clone-changed-the-original|view_partial")
+            res["event_digest"] = digest(trace)
+            res["distinct"] = [digest((case["model_seed"], kind))]
+            return res
         elif kind == "functionalize":
             pass
         else:
@@ -273,6 +305,13 @@ def run_case(case: dict) -> dict:
         unsorted = case["params"].get("unsorted")
         viol("clone-raised", f"{kind} clone raised {type(e).__name__}: {str(e)[:300]} / cause: {str(e.__cause__)[:300]}", key=f"clone-raised|{kind}|unsorted={unsorted}")
         return res
+    if kind != "functionalize" and closed:
+        # (a clone that captures outer values adds its nodes to those values' consumers by design)
+        snap_after = snapshot.snapshot(w0, tensors=False)
+        if snap_after != snap0:
+            d = snapshot.diff(snap0, snap_after)
+            viol("clone-changed-the-original", f"{kind}: cloning changed the original: {str(d[:2])[:400]}", key=f"clone-changed-the-original|{kind}")
+            return res
     w1 = World()
     w1.reg(model if kind != "view" else model)
     w1.close()
